@@ -154,6 +154,17 @@ def construction_sites(repo, rep, rule, why=''):
                               '%s%s builds a PrettyContext from scratch: every setting it does not copy by hand (max_seq_len, sort_dict_keys, '
                               'depth, the visited set, user values) silently falls back to the constructor default for everything printed below'
                               % ((why + ': ') if why else '', f.key), nontrivial=True)
+            elif isinstance(c.func, ast.Attribute) and c.func.attr in private and not inside_class and isinstance(c.func.value, ast.Name) \
+                    and (repo.resolve(f.module, c.func.value.id) or (None, None))[1] is ci \
+                    and {d.id for d in ci.methods[c.func.attr].node.decorator_list if isinstance(d, ast.Name)} & {'classmethod', 'staticmethod'}:
+                # an alternative constructor called on the class itself: the same as calling the class
+                n += 1
+                ok = f is entry
+                seen_entry = seen_entry or f is entry
+                rep.check(ok, rule, 'context-built-from-scratch:%s' % f.qualname, '%s:%d' % (f.module.relpath, c.lineno),
+                          'contexts are created by the pipeline entry / the class only',
+                          '%s%s builds a PrettyContext from scratch through %s(): every setting it does not pass on silently falls back to the '
+                          'constructor default for everything printed below' % ((why + ': ') if why else '', f.key, c.func.attr), nontrivial=True)
             elif isinstance(c.func, ast.Attribute) and c.func.attr in private and not inside_class:
                 # a private method of the context class called on something that may be a context
                 n += 1
